@@ -3,4 +3,4 @@ Require Import ExtrOcamlBasic.
 From Coq Require Import ZArith NArith.
 From SWH.lib Require Import Sha1.
 From SWH.model Require Import Time Rel Rev.
-Extraction "extract/C03/model.ml" rev_manifest revision_valid post_init effective_extra parse_commit wf_extra sha1 Z.of_N N.to_nat.
+Extraction "extract/C03/model.ml" rev_manifest rev_compute_hash revision_valid post_init effective_extra parse_commit wf_extra sha1 Z.of_N N.to_nat.
